@@ -1368,7 +1368,7 @@ package spec
 //@   ensures  [C18] cache-dom-monotone @@ forall u string :: u != normBase(".root") && old(cacheDom[u]) ==> cacheDom[u]
 
 //@ func ExpandSchema
-//@   call ExpandSchemaWithBasePath 0 requires [C10] root-reachable-through-the-cache @@ arg_opts != nil && cacheDom[arg_opts.RelativeBase] && (root != nil ==> cacheDoc[arg_opts.RelativeBase] == root)
+//@   call ExpandSchemaWithBasePath 0 requires [C10] root-reachable-through-the-cache @@ arg_opts != nil && cacheDom[arg_opts.RelativeBase] && (root != nil ==> cacheDoc[arg_opts.RelativeBase] == root) && (root == nil ==> holds(cacheDoc[arg_opts.RelativeBase], "*Schema") && asPtr(cacheDoc[arg_opts.RelativeBase], "*Schema") == schema)
 //@   strings  uninterpreted
 //@   property C04, C08, C10
 //@   assumes  [C04] pseudo-root-wellformed @@ canonBase(normBase(".root"))
